@@ -7,7 +7,9 @@ import (
 	"os"
 	"path/filepath"
 	"runtime"
+	"runtime/debug"
 	"sort"
+	"strings"
 	"sync"
 
 	"verif/e2/spec"
@@ -186,7 +188,7 @@ func Main() {
 					r := func() (r *MethodResult) {
 						defer func() {
 							if p := recover(); p != nil {
-								r = &MethodResult{HarnessErr: []string{fmt.Sprintf("driver panicked: %v", p)}}
+								r = &MethodResult{HarnessErr: []string{fmt.Sprintf("driver panicked: %v | %s", p, trimStackAll(debug.Stack()))}}
 							}
 						}()
 						return f(s, m, *tier)
@@ -201,4 +203,18 @@ func Main() {
 		}()
 	}
 	wg.Wait()
+}
+
+func trimStackAll(b []byte) string {
+	lines := strings.Split(string(b), "\n")
+	var keep []string
+	for _, l := range lines {
+		if strings.Contains(l, "verif/e2/") {
+			keep = append(keep, strings.TrimSpace(l))
+		}
+		if len(keep) > 8 {
+			break
+		}
+	}
+	return strings.Join(keep, " < ")
 }
